@@ -56,6 +56,17 @@ var solvers = []solverSpec{
 	{name: "cvc5", argv: func(f string, t int) []string {
 		return []string{"cvc5", "--incremental", "--produce-models", fmt.Sprintf("--tlimit=%d", t*1000), f}
 	}},
+	// quantifier instantiation order decides whether a heavily quantified goal closes in a second or
+	// not at all: the same solver with other seeds takes part in the race
+	{name: "z3-new", argv: func(f string, t int) []string {
+		return []string{"z3-new", fmt.Sprintf("-T:%d", t), "smt.random_seed=7", f}
+	}},
+	{name: "z3-new", argv: func(f string, t int) []string {
+		return []string{"z3-new", fmt.Sprintf("-T:%d", t), "smt.random_seed=42", f}
+	}},
+	{name: "z3-new", argv: func(f string, t int) []string {
+		return []string{"z3-new", fmt.Sprintf("-T:%d", t), "smt.random_seed=1234", "smt.qi.eager_threshold=20", f}
+	}},
 }
 
 var solverStats sync.Map // name -> *int64 discharged count
